@@ -461,7 +461,7 @@ Definition wf_frame (c : cfg) (f : frame) : Prop :=
   | _ => True
   end.
 Definition wf_thread (c : cfg) (th : thread) : Prop := Forall (wf_frame c) (stack th).
-Definition wf_shared (c : cfg) (s : shared) : Prop := length (gates s) = nstages c /\ Forall (fun e => wf_task c (snd e)) (bag s).
+Definition wf_shared (c : cfg) (s : shared) : Prop := (length (gates s) = nstages c /\ 0 <= gnext s) /\ Forall (fun e => wf_task c (snd e)) (bag s).
 
 Lemma Forall_remove_at {A} (P : A -> Prop) l i : Forall P l -> Forall P (remove_at i l).
 Proof. intros F. revert i; induction F as [|a l Pa F IH]; intros [|i]; cbn; auto. Qed.
@@ -512,8 +512,8 @@ Lemma wf_local c t s th ch s1 th1 ch1 site wake :
   (0 < nstages c)%nat -> wf_shared c s -> wf_thread c th ->
   mstep_thread c t s th ch = Some (s1, th1, ch1, site, wake) -> wf_shared c s1 /\ wf_thread c th1.
 Proof.
-  intros H0 [WL WB] WT H. pose proof (ninst_pos c) as NP. unfold wf_thread in *. step_cases H th; wf_fin.
-  all: unfold wf_shared, wf_thread; mnorm; cbn [stack]; try rewrite Hst.
+  intros H0 [[WL WG] WB] WT H. pose proof (ninst_pos c) as NP. unfold wf_thread in *. step_cases H th; wf_fin.
+  all: unfold wf_shared, wf_thread; mnorm; cbn [stack]; try rewrite Hst; rewrite ?strand_gates_gnext; cbn [gnext w_exc w_result].
   all: wf_solve WB.
 Qed.
 
@@ -521,7 +521,7 @@ Definition WF (c : cfg) (s : state) : Prop := wf_shared c (sh s) /\ Forall (wf_t
 
 Lemma WF_init c : WF c (init c).
 Proof.
-  pose proof (ninst_pos c). split; [split; cbn; [apply map_length | constructor]|].
+  pose proof (ninst_pos c). split; [split; cbn; [split; [apply map_length | lia] | constructor]|].
   cbn. constructor; [repeat constructor|]. apply Forall_forall. intros th Hth. apply in_map_iff in Hth. destruct Hth as [w [<- _]].
   repeat constructor.
 Qed.
@@ -634,6 +634,17 @@ Ltac acct_fin :=
   repeat match goal with |- context [if ?b then _ else _] => destruct b eqn:? end;
   eqb_cases; wsimp; nth_cases; wsimp; bool_hyps; lia.
 
+Lemma sumf_nonneg_in {A} (w : A -> Z) l : (forall x, In x l -> 0 <= w x) -> 0 <= sumf w l.
+Proof.
+  induction l as [|a l IH]; intros H; cbn [sumf]; [lia|].
+  pose proof (H a (or_introl eq_refl)). assert (0 <= sumf w l) by (apply IH; intros; apply H; right; assumption). lia.
+Qed.
+Lemma sumf_in_le_in {A} (w : A -> Z) l x : (forall y, In y l -> 0 <= w y) -> In x l -> w x <= sumf w l.
+Proof.
+  induction l as [|a l IH]; intros N; cbn [sumf]; [contradiction|]. intros [->|H].
+  - assert (0 <= sumf w l) by (apply sumf_nonneg_in; intros; apply N; right; assumption). lia.
+  - pose proof (N a (or_introl eq_refl)). assert (w x <= sumf w l) by (apply IH; [intros; apply N; right; assumption | exact H]). lia.
+Qed.
 Lemma sumf_le {A} (w1 w2 : A -> Z) l : (forall x, In x l -> w1 x <= w2 x) -> sumf w1 l <= sumf w2 l.
 Proof.
   induction l as [|a l IH]; intros H; cbn; [lia|].
